@@ -19,6 +19,7 @@ import (
 	"fmt"
 	"math"
 	"regexp"
+	"sort"
 	"strconv"
 	"strings"
 	"sync"
@@ -686,7 +687,15 @@ func MixArray(data []any) []any {
 
 func MixObject(data map[string]any) (map[string]any, error) {
 	mapper := make(map[string]any)
-	for key, item := range data {
+	// two entries can flatten to the same name (`a_b` beside a nested `a.b`):
+	// the keys are taken in sorted order, so that the same one wins every time
+	keys := make([]string, 0, len(data))
+	for key := range data {
+		keys = append(keys, key)
+	}
+	sort.Strings(keys)
+	for _, key := range keys {
+		item := data[key]
 		if innerMap, ok := item.(map[string]any); ok {
 			rs, err := MixObject(innerMap)
 			if err != nil {
